@@ -95,12 +95,12 @@ func checkC13(p *load.Program, r *kit.Report) {
 			}
 		case in.owner == accept:
 			r.OK("HANDLER-TABLE", key, posOf(p, in.in), "installed by accept(), together with ready/verified")
-		case in.owner.Name() == "RequestBlock":
+		case fname(in.owner) == "RequestBlock":
 			// only caller: NodeManager.RequestBlock with a node obtained from nextNode
 			refs := refsTo(p, in.owner)
 			ok := len(refs) > 0
 			for _, rf := range refs {
-				if rf.Name() != "RequestBlock" {
+				if fname(rf) != "RequestBlock" {
 					ok = false
 				}
 			}
@@ -185,7 +185,7 @@ func checkC13(p *load.Program, r *kit.Report) {
 	// accept gating
 	if f := fn(p, r, "GUARD-DOM", R, "BitcoinNode.accept"); f != nil {
 		refs := refsTo(p, f)
-		ok := len(refs) == 1 && refs[0].Name() == "handleHeadersVerify"
+		ok := len(refs) == 1 && fname(refs[0]) == "handleHeadersVerify"
 		r.Check(ok, "GUARD-DOM", "accept/single-call-site", posOf(p, f.Blocks[0].Instrs[0]), "accept() is called only from handleHeadersVerify (guards decided under C03)", "accept() is referenced from "+refNames(refs))
 		// verify-only: stop before sending
 		voF := p.Field(R, "BitcoinNode", "isVerifyOnly")
